@@ -185,7 +185,7 @@ inline uint64_t fnv(const void* p, size_t n, uint64_t h = 1469598103934665603ULL
 inline uint64_t fnv(const std::string& s, uint64_t h = 1469598103934665603ULL) { return fnv(s.data(), s.size(), h); }
 
 struct Args {
-	std::string mode, out, last, faildir, tier = "quick", replay, part;
+	std::string mode, out, last, faildir, tier = "quick", replay, part, bin;
 	uint64_t seed = 1;
 	int worker = 0, workers = 1;
 	double scale = 1.0;
@@ -430,7 +430,7 @@ struct Runner {
 		if (args.faildir.empty())
 			return;
 		// one file per (part): overwritten by every later (smaller, when shrinking) failing case
-		std::string path = args.faildir + "/" + vf_harness_name() + "." + part + ".w" + std::to_string(args.worker) + ".case";
+		std::string path = args.faildir + "/" + (args.bin.empty() ? std::string(vf_harness_name()) : args.bin) + "." + part + ".w" + std::to_string(args.worker) + ".case";
 		FILE* f = fopen(path.c_str(), "w");
 		if (!f)
 			return;
@@ -454,6 +454,11 @@ inline Runner& runner()
 inline int main_(int argc, char** argv)
 {
 	Args a;
+	{
+		// the binary's own name (one source may be built into several binaries, e.g. an ASan and a TSan variant)
+		const char* b = strrchr(argv[0], '/');
+		a.bin = b ? b + 1 : argv[0];
+	}
 	for (int i = 1; i < argc; i++) {
 		std::string k = argv[i];
 		auto val = [&]() -> std::string { return i + 1 < argc ? argv[++i] : ""; };
